@@ -5,8 +5,8 @@ CONSTANTS
   MaxS = 12
   Alphabet = {97, 98}
   Base = 1
-  Off2N = 2
-  Len2N = 2
+  Off2N = 1
+  Len2N = 1
   Off3N = 4
   Len8N = 4
   GPS = 1
